@@ -223,7 +223,10 @@ impl JobServer {
             }
             None => None,
         };
-        let cheats = if max_jobs == 0 {
+        // The cheat pipe goes with the token pipe: reuse the parent's only if we join its
+        // jobserver.  (With MAKEFLAGS removed from our environment we start a jobserver of
+        // our own; on the parent's cheat pipe the two builds would eat each other's bytes.)
+        let cheats = if token_fds.is_some() {
             match env::var(JobServer::ENV_CHEATFDS) {
                 Ok(v) => v,
                 Err(VarError::NotPresent) => String::new(),
